@@ -158,7 +158,7 @@ def parse_google_drive_url(url):
     if path[1] != "d":
         return None
 
-    if path[-1] == "pub":
+    if len(path) > 3 and path[-1] == "pub":
         if path[2] != "e":
             return None
 
